@@ -235,6 +235,30 @@ pub enum IncomingPolicy {
     Retry,
     Reject,
     Ignore,
+    /// hand the `Incoming` to the scenario (`Sim::held`), which accepts / refuses / retries / ignores it later
+    Hold,
+}
+
+/// What `Endpoint::handle` did with one datagram (`Sim::route_log`)
+#[derive(Clone, Debug, PartialEq, Eq)]
+pub enum Routed {
+    Nothing,
+    Conn(usize),
+    New,
+    Response(usize),
+}
+
+#[derive(Clone, Debug)]
+pub struct RouteRec {
+    pub node: usize,
+    pub step: u64,
+    pub at: u64,
+    pub from: SocketAddr,
+    pub genuine: bool,
+    pub data: Vec<u8>,
+    pub to: Routed,
+    /// `Endpoint::incoming_buffer_bytes` grew: the datagram was buffered for a pending `Incoming`
+    pub buffered: bool,
 }
 
 pub struct Node {
@@ -328,6 +352,10 @@ pub struct Sim {
     pub tx_tap: Option<Box<dyn FnMut(&mut Sim, usize, usize, &Snapshot, &quinn_proto::Transmit, &[u8])>>,
     /// C07: per-destination ledger with the harness' own notion of validated addresses (`crate::ledger`)
     pub ledger: crate::ledger::DestLedger,
+    /// `IncomingPolicy::Hold`: (node, time received, attempt) waiting for the scenario's decision
+    pub held: Vec<(usize, u64, Incoming)>,
+    /// when Some: one record per datagram handed to an endpoint (scenario `multi`, C09 routing oracles)
+    pub route_log: Option<Vec<RouteRec>>,
 }
 
 pub fn addr(port: u16) -> SocketAddr {
@@ -435,6 +463,8 @@ impl Sim {
             timeout_tap: None,
             tx_tap: None,
             ledger: Default::default(),
+            held: Vec::new(),
+            route_log: None,
         }
     }
 
@@ -605,7 +635,9 @@ impl Sim {
         self.wire = rest;
         due.sort_by_key(|d| (d.at, d.seq));
         for d in due {
-            self.delivered[node] += 1;
+            if let Some(x) = self.delivered.get_mut(node) {
+                *x += 1;
+            }
             self.handle_datagram(node, d);
         }
     }
@@ -614,7 +646,19 @@ impl Sim {
         let now = self.t();
         let mut buf = Vec::new();
         self.ledger.on_rx(node, d.from, &d.data);
+        let ibb = self.nodes[node].ep.incoming_buffer_bytes();
         let ev = self.nodes[node].ep.handle(now, d.from, None, d.ecn, BytesMut::from(&d.data[..]), &mut buf);
+        if self.route_log.is_some() {
+            let to = match &ev {
+                None => Routed::Nothing,
+                Some(DatagramEvent::ConnectionEvent(ch, _)) => Routed::Conn(ch.0),
+                Some(DatagramEvent::NewConnection(_)) => Routed::New,
+                Some(DatagramEvent::Response(t)) => Routed::Response(t.size),
+            };
+            let buffered = self.nodes[node].ep.incoming_buffer_bytes() > ibb;
+            let rec = RouteRec { node, step: self.steps, at: self.now, from: d.from, genuine: d.genuine, data: d.data.clone(), to, buffered };
+            self.route_log.as_mut().unwrap().push(rec);
+        }
         // bytes are credited to the sender's address when the datagram is consumed: at once for datagrams the
         // endpoint itself answers or turns into a new connection, and when the connection handles the event for
         // datagrams routed to an existing connection (see drive_conn)
@@ -680,6 +724,10 @@ impl Sim {
             }
             IncomingPolicy::Ignore => {
                 self.nodes[node].ep.ignore(inc);
+                return;
+            }
+            IncomingPolicy::Hold => {
+                self.held.push((node, self.now, inc));
                 return;
             }
         }
@@ -1309,6 +1357,16 @@ pub fn default_pair(seed: u64, tc_client: TransportConfig, tc_server: TransportC
 
 pub fn content_byte(stream: u64, off: u64) -> u8 {
     (off.wrapping_mul(31).wrapping_add(stream.wrapping_mul(17)).wrapping_add(off >> 8) % 251) as u8
+}
+
+/// Content salted per connection (salt 0 = `content_byte`): for salts 1..250 every byte differs from the unsalted
+/// content and from every other salt's, so a byte delivered to the wrong connection is seen (C09).
+pub fn content_byte_s(salt: u64, stream: u64, off: u64) -> u8 {
+    content_byte(stream.wrapping_add(salt), off)
+}
+
+pub fn content_s(salt: u64, stream: u64, off: u64, len: usize) -> Bytes {
+    (0..len as u64).map(|i| content_byte_s(salt, stream, off + i)).collect::<Vec<u8>>().into()
 }
 
 pub fn content(stream: u64, off: u64, len: usize) -> Bytes {
